@@ -52,6 +52,7 @@ def _correspondence_once(ctx, rep=0):
     _c01.spline_boxes(ctx, gen, inverse=True, prop='C02')   # exported spline functions, non-square boxes, non-default minima
     # linear family (generic, non-initial parameters), normalisation layers, permutations, squeeze, wrappers, UMNN: round trip directly
     oracles.direct_on_extras(ctx, 'C02', oracles.roundtrip_search)
+    oracles.knot_consistency(ctx, gen, count=True)          # inputs exactly on the knots of the one family with derivative jumps
 
 
 def search(ctx):
